@@ -56,7 +56,7 @@ Lemma lost_round s i rt : only_sendable s i ->
   frame_bytes s1 i = frame_bytes s i /\
   op_poll s2 i true rt =
     match rt with
-    | O => (set_st s2 i SNone, PollErr ETimeout, O)
+    | O => (set_st (op_drop_clear s2 i) i SNone, PollErr ETimeout, O)
     | S r => (set_st s2 i SSendable, PollPending, r)
     end.
 Proof.
@@ -110,7 +110,7 @@ Proof.
   induction R as [|R IH]; intros s i O.
   - rewrite lost_run_S. destruct (lost_round s i 0 O) as (A & B & C & D). cbv zeta in *.
     rewrite A, Nat.eqb_refl, B, D, C. repeat split; auto.
-    destruct O as (Hi & _). rewrite sst_set_st by (rewrite !nslots_set_st; exact Hi).
+    destruct O as (Hi & _). rewrite sst_clear_set by (rewrite !nslots_set_st; exact Hi).
     rewrite Nat.eqb_refl. reflexivity.
   - rewrite lost_run_S. destruct (lost_round s i (S R) O) as (A & B & C & D). cbv zeta in *.
     rewrite A, Nat.eqb_refl, B, D, C.
